@@ -298,6 +298,9 @@ class WatchWorld:
         return self.P.wrap(self.str_of(self.P.unwrap(v)))
 
     def function(self, ex, dotted, args, kw, node):
+        if dotted in ("os.fsdecode", "os.fsencode") and args and isinstance(args[0], VRef):
+            f = z3.Function(dotted.replace(".", "_"), self.PS, self.PS)
+            return self.P.wrap(f(args[0].t))
         if dotted in ("hash", "builtins.hash"):
             ex.ghost["hashed"] = args[0]
             return VInt(ex.fresh_term(z3.IntSort(), "hash"))
